@@ -84,6 +84,9 @@ def store(cx, fn, env, place, val):
     if is_bare(place):
         env[l] = val
         return
+    if place["p"] == ["*"]:
+        env[("deref", l)] = val      # `*r = val`: recorded under the reference (elementwise updates through iter_mut())
+        return
     if any(e == "*" for e in place["p"]):
         return          # write through a reference: not a value accumulator
     base = env.get(l)
@@ -116,7 +119,8 @@ def loop_transfer(prog, fn, v, lp, tracked):
     for (blocks, edges, end) in body_paths(fn, lp, starts):
         env, cx = exec_path(prog, fn, blocks, tracked)
         out.append({"facts": [fa for e in edges for fa in facts_by_edge.get(e, [])], "end": end,
-                    "values": {l: env[l] for l in tracked}, "blocks": blocks, "edges": edges})
+                    "values": {l: env[l] for l in tracked}, "blocks": blocks, "edges": edges,
+                    "deref_writes": {k[1]: x for k, x in env.items() if isinstance(k, tuple) and k[0] == "deref"}, "cx": cx})
     return out
 
 
